@@ -115,6 +115,39 @@ def body_random(rep, case):
     check_valid(rep, "random", case["hex"])
 
 
+def strat_presigned():
+    """Inputs that already end in the valid signature of what precedes them (signer output fed back in), incl. the
+    signature of the empty string: signing must still append four more bytes."""
+    def mk(b):
+        return {"hex": crc.sign(b).hex()}
+    twice = st.binary(max_size=200).map(lambda b: {"hex": crc.sign(crc.sign(b)).hex()})
+    return st.one_of(st.binary(max_size=300).map(mk), twice, st.sampled_from(
+        [{"hex": crc.signature(b"").hex()}, {"hex": crc.sign(ref_frames()[0]).hex()}, {"hex": ref_frames()[3].hex().upper()}]))
+
+
+def body_presigned(rep, case):
+    check_valid(rep, "presigned", case["hex"])
+
+
+def cases_long():
+    # beyond the 4 KiB of the random part: block boundaries of any chunked implementation
+    return [{"len": n, "seed": n % 7} for n in (4097, 8191, 8192, 8193, 12288, 16383, 16384, 16385, 20000, 32769, 65537)]
+
+
+def body_long(rep, case):
+    if "hex" in case:
+        return check_valid(rep, "long", case["hex"])
+    import hashlib
+    n = case["len"]
+    blob = b"".join(hashlib.blake2b(f"{case['seed']}/{i}".encode(), digest_size=64).digest() for i in range(n // 64 + 1))[:n]
+    sign = _sign()
+    p = blob.hex()
+    rep.tick("long", key=n, nontrivial=True, sample={"len": n})
+    out = sign(p)
+    if out != p + crc.signature(blob).hex():
+        raise Violation("C04/signature-mismatch/long-input", {"len": n, "seed": case["seed"]}, crc.signature(blob).hex(), out[len(p):])
+
+
 def strat_spelling():
     def spell(t):
         b, mask = t
@@ -158,6 +191,8 @@ def subchecks(tier):
         Sub("exhaustive-len0-2", body_range, cases=cases_range, shards=16, exhaustive=True),
         Sub("bitflips", body_flip, cases=cases_flip, shards=16, exhaustive=True),
         Sub("random", body_random, strategy=strat_random, n=600_000 if big else 4000, shards=16 if big else 4),
+        Sub("presigned", body_presigned, strategy=strat_presigned, n=100_000 if big else 1500, shards=8 if big else 1),
+        Sub("long", body_long, cases=cases_long, shards=4, exhaustive=True),
         Sub("spelling", body_spelling, strategy=strat_spelling, n=200_000 if big else 2000, shards=8 if big else 1),
         Sub("invalid", body_invalid, strategy=strat_invalid, n=200_000 if big else 2000, shards=8 if big else 1),
     ]
